@@ -10,6 +10,8 @@ import CharsetProof.Model.Cli
 import CharsetProof.Model.Cd
 import CharsetProof.Model.Md
 import CharsetProof.Model.Ranges
+import CharsetProof.Model.RangeRules
+import CharsetProof.Model.Coh
 import Std.Data.HashMap
 namespace Charset.Driver
 open Charset
@@ -237,6 +239,34 @@ def handle (line : String) : String :=
       let lt : Nat → Nat → Bool := fun i j => m[i * n + j]? == some '1'
       "ok " ++ " ".intercalate ((sortUnstable lt (List.range n)).map toString)
     | none => "bad-op"
+  | ["cohfull", thr, th, incl, envs] =>
+    -- cd::coherence_ratio with all components in the model; env = cp:alpha:accent:lower.lower...
+    let parseEnv (p : String) : Option (Nat × Bool × Bool × List Nat) :=
+      match p.splitOn ":" with
+      | [cp, al, ac, lo] =>
+        match cp.toNat?, (if lo = "" then some [] else (lo.splitOn ".").mapM (·.toNat?)) with
+        | some cp, some lo => some (cp, al == "1", ac == "1", lo)
+        | _, _ => none
+      | _ => none
+    match f32OfBits thr, textOfHex th, (if incl = "-" then some [] else some ((incl.splitOn ",").map nameOfAscii)),
+          (if envs = "-" then some [] else (envs.splitOn ",").mapM parseEnv) with
+    | some thr, some t, some incl, some envs =>
+      let em : Std.HashMap Nat (Bool × Bool × List Nat) := envs.foldl (fun m e => m.insert e.1 e.2) {}
+      let env : Coh.CohEnv := {
+        isAlpha := fun c => ((em.get? c).map (·.1)).getD false
+        accent := fun c => ((em.get? c).map (·.2.1)).getD false
+        lower := fun c => ((em.get? c).map (·.2.2)).getD [c] }
+      (match Coh.coherenceRatio env Gen.unicodeRanges Gen.secondaryKeywords Gen.languages Gen.tooSmall t thr incl with
+       | some r => "ok " ++ showCoh r
+       | none => "ok E")
+    | _, _, _, _ => "bad-op"
+  | ["suspall"] =>
+    -- is_suspiciously_successive_range on every pair of rows of the block table (id 0 = no range)
+    let n := Gen.unicodeRanges.length
+    let ids := List.range (n + 1)
+    "ok " ++ String.ofList (ids.flatMap (fun a => ids.map (fun b => if suspNow a b then '1' else '0')))
+  | ["secondaryall"] =>
+    "ok " ++ String.ofList (Gen.unicodeRanges.map (fun r => if rangeSecondary Gen.secondaryKeywords r.1 then '1' else '0'))
   | ["uranges", th] =>
     -- CharsetMatch::unicode_ranges() of a text ("none" = no decoded payload)
     match (if th = "none" then some none else (textOfHex th).map some) with
@@ -409,7 +439,14 @@ def handle (line : String) : String :=
     | some thr, some t, some infos, some pairs =>
       let im : Std.HashMap Nat Md.CharInfo := infos.foldl (fun m i => m.insert i.cp i) {}
       let sm : Std.HashMap (Nat × Nat) Unit := pairs.foldl (fun m p => m.insert p ()) {}
-      if t.all (fun c => im.contains c) && im.contains 10 then
+      -- the range of a character and the suspicious pairs are also *computed* by the model
+      -- (Ranges.lean, RangeRules.lean); what the crate supplied must agree
+      let badRange := infos.find? (fun i => rangeIdOf Gen.unicodeRanges i.cp != i.range)
+      let rids := (infos.map (·.range)).eraseDups
+      let badPair := (rids.flatMap (fun a => rids.map (fun b => (a, b)))).find? (fun p => suspNow p.1 p.2 != sm.contains p)
+      if badRange.isSome then s!"env-mismatch range of {(badRange.map (·.cp)).getD 0}"
+      else if badPair.isSome then s!"env-mismatch pair {(badPair.getD (0,0)).1} {(badPair.getD (0,0)).2}"
+      else if t.all (fun c => im.contains c) && im.contains 10 then
         let env : Md.MdEnv := { info := fun c => im.getD c ⟨c, 0, 0, c⟩, susp := fun a b => sm.contains (a, b) }
         -- the answer, and (for the evidence file's distribution) the final per-plugin ratios
         let fin := (t ++ [10]).foldl (fun (d : Md.Dets) c => d.feed env (env.info c)) ({} : Md.Dets)
